@@ -5,6 +5,8 @@ package ctlog
 import (
 	"context"
 
+	"golang.org/x/mod/sumdb/tlog"
+
 	"filippo.io/sunlight"
 )
 
@@ -237,16 +239,29 @@ func VerifC08Tamper(n0, budget, target, positions int) {
 	}
 	all := append(append([][32]byte{}, truth...), refLeafHash(newLeaf))
 	verifAssert(refMTH(all) == [32]byte(nc.hash), "the checkpoint signed after tampering is not the committed tree plus the newly sequenced entry")
-	// the data tile the restarted instance published for the new tree holds, at every position, an entry
-	// whose Merkle leaf is the committed one (uncovered fields may differ, see above)
-	leaves2, ok := w.readLeaves(nc.n)
-	verifAssert(ok, "the data tiles published after tampering are unreadable")
-	if ok {
-		good := true
-		for i := (nc.n - 1) / sunlight.TileWidth * sunlight.TileWidth; i < nc.n; i++ {
-			good = verifAnd(good, refLeafHash(leaves2[i]) == all[i])
+	// the data tile the restarted instance published for the new tree starts with the entries of the
+	// committed tree it continues: every position below the committed size holds an entry whose Merkle
+	// leaf is the committed one (uncovered fields may differ, and what follows the committed entries is
+	// not constrained here: LoadLog accepts slack after the verified entries, see DESIGN.md observations)
+	tileStart := (nc.n - 1) / sunlight.TileWidth * sunlight.TileWidth
+	if truthN > tileStart {
+		key := sunlight.TilePath(tlog.Tile{H: sunlight.TileHeight, L: -1, N: tileStart / sunlight.TileWidth, W: int(nc.n - tileStart)})
+		o, found := w.objects[key]
+		verifAssert(found, "the data tile of the new tree is not published")
+		if found {
+			raw, okz := verifUngzip(o.data)
+			good := okz
+			for i := tileStart; i < truthN && good; i++ {
+				e, rest, err := sunlight.ReadTileLeaf(raw)
+				if err != nil {
+					good = false
+					break
+				}
+				raw = rest
+				good = verifAnd(good, refLeafHash(e) == truth[i])
+			}
+			verifAssert(good, "the data tile published after tampering does not start with the entries of the tree it continues")
 		}
-		verifAssert(good, "the data tile published after tampering does not hold the entries of the tree it continues")
 	}
 }
 
